@@ -48,6 +48,9 @@ type CircuitBreaker struct {
 	lastFailureTime time.Time
 	lastSuccessTime time.Time
 	nextAttempt     time.Time
+
+	// state-change notifications recorded under the lock, delivered after it is released
+	pendingNotify []func()
 }
 
 var (
@@ -171,7 +174,9 @@ func (cb *CircuitBreaker) beforeRequest() error {
 				cb.requestCount = 0
 				cb.successCount = 0
 			}
+			notify := cb.takeNotifications()
 			cb.mutex.Unlock()
+			runNotifications(notify)
 			return nil
 		}
 		return ErrCircuitBreakerOpen
@@ -195,7 +200,11 @@ func (cb *CircuitBreaker) beforeRequest() error {
 // afterRequest updates the circuit breaker state after a request
 func (cb *CircuitBreaker) afterRequest(success bool) {
 	cb.mutex.Lock()
-	defer cb.mutex.Unlock()
+	defer func() {
+		notify := cb.takeNotifications()
+		cb.mutex.Unlock()
+		runNotifications(notify)
+	}()
 
 	now := time.Now()
 
@@ -228,7 +237,11 @@ func (cb *CircuitBreaker) afterRequest(success bool) {
 	}
 }
 
-// setState changes the circuit breaker state and calls the callback
+// setState changes the circuit breaker state. It must be called with the
+// write lock held. The callback is not invoked here: callbacks may call back
+// into the breaker (Counts, State), which would deadlock on the lock we hold.
+// The notification is queued and delivered by the caller once the lock has
+// been released (see takeNotifications / runNotifications).
 func (cb *CircuitBreaker) setState(state State) {
 	if cb.state == state {
 		return
@@ -238,7 +251,23 @@ func (cb *CircuitBreaker) setState(state State) {
 	cb.state = state
 
 	if cb.onStateChange != nil {
-		cb.onStateChange(cb.name, prev, state)
+		name, callback := cb.name, cb.onStateChange
+		cb.pendingNotify = append(cb.pendingNotify, func() { callback(name, prev, state) })
+	}
+}
+
+// takeNotifications returns the queued state-change notifications.
+// It must be called with the write lock held.
+func (cb *CircuitBreaker) takeNotifications() []func() {
+	notify := cb.pendingNotify
+	cb.pendingNotify = nil
+	return notify
+}
+
+// runNotifications delivers state-change notifications; call it without the lock.
+func runNotifications(notify []func()) {
+	for _, fn := range notify {
+		fn()
 	}
 }
 
